@@ -1,7 +1,8 @@
 #!/bin/bash
 # Applies every seeded defect to /repo, runs the checks of its property (plus related ones), restores the tree,
 # and writes seeded/RESULTS.md and the "checks_run" field of each meta.json.
-cd /verif || exit 9
+ROOT=$(cd $(dirname $0) && pwd); REPO=${VP_RUN_REPO:-/repo}; export VERIF_REPO=$REPO
+cd $ROOT || exit 9
 tier=${1:-quick}
 declare -A extra=( [C01]="C13" [C02]="C08" [C03]="C09" [C06]="C12" [C07]="C08" [C08]="C07" [C09]="C03" [C12]="C06" [C14]="C15" [C15]="C14" [C19]="C02" [C10]="C05" [C05]="C10" )
 out=seeded/RESULTS.md
@@ -14,12 +15,12 @@ for d in seeded/*/; do
   [ -f $d/patch.diff ] || continue
   prop=$(python3 -c "import json;print(json.load(open('$d/meta.json'))['property'])")
   checks="$prop ${extra[$prop]}"
-  cd /repo
+  cd $REPO
   if ! git diff --quiet; then echo "repo dirty"; exit 9; fi
-  if ! git apply /verif/$d/patch.diff 2>/dev/null; then
-    echo "| $name | $prop | - | patch does not apply to the current /repo HEAD |" >> /verif/$out; cd /verif; continue
+  if ! git apply $ROOT/$d/patch.diff 2>/dev/null; then
+    echo "| $name | $prop | - | patch does not apply to the current /repo HEAD |" >> $ROOT/$out; cd $ROOT; continue
   fi
-  cd /verif
+  cd $ROOT
   res=""
   for c in $checks; do
     line=$(./check $c $tier 2>&1 | grep -E "^(VIOLATION|OK|INCONCLUSIVE)" | head -1 | cut -c1-120)
@@ -28,7 +29,7 @@ for d in seeded/*/; do
     res="$res $c:$verdict"
     echo "$name $c $verdict"
   done
-  cd /repo && git checkout -- . ; cd /verif
+  cd $REPO && git checkout -- . ; cd $ROOT
   python3 - "$d" "$res" "$tier" <<'PY'
 import json,sys
 d,res,tier=sys.argv[1:4]
@@ -37,5 +38,5 @@ m.setdefault('checks_run',{})[tier]=res.strip()
 json.dump(m,open(d+'/meta.json','w'),indent=1)
 PY
 done
-git -C /verif checkout -- evidence 2>/dev/null
+git -C $ROOT checkout -- evidence 2>/dev/null
 cat $out
